@@ -26,6 +26,10 @@
   the model.  Acquire and release are not yield points: they happen silently after the
   preceding store call; a thread whose next step is the acquire of a held lock cannot run.
   The programs of the code before the fix are kept as `…Old` (regression witnesses).
+
+  Since /repo e23bf6c3 `create_node` writes the node's two empty lists BEFORE the node record
+  (`createNodeFrom`); the order before that commit is kept as `createNodeFromOld` /
+  `Op.progNodeFirst` (regression witness).
   `batch_unique_lock` is only taken when a unique constraint exists; the in-memory index
   maintenance uses the same stripes but holds them across no store call.
 
@@ -145,15 +149,28 @@ def rmFromOld (k : Key) (e : Nat) (c : Prog) : Prog :=
     | none => c
     | some val => .put k (.list ((listOfVal val).filter (fun x => x != e))) c
 
-/-- `create_node_with_labels` after validation: alloc id, put record, put the two empty lists -/
+/-- `create_node_with_labels` / `create_node_internal` after validation and id allocation, since
+    /repo e23bf6c3: the two empty adjacency lists are written FIRST, the node record (which makes the
+    node visible to `node_exists` / `create_edge`) LAST -/
 def createNodeFrom (id label v : Nat) : Prog :=
+  .put (.out id) (.list []) <|
+  .put (.inn id) (.list []) <|
+  .put (.node id) (.node [label] v) <|
+  .done (.id id)
+
+def createNodeProg (label v : Nat) : Prog :=
+  .allocN fun id => createNodeFrom id label v
+
+/-- `create_node` before e23bf6c3: the node record first, the two empty lists afterwards (a
+    `create_edge` that already saw the node had its list entry wiped) -/
+def createNodeFromOld (id label v : Nat) : Prog :=
   .put (.node id) (.node [label] v) <|
   .put (.out id) (.list []) <|
   .put (.inn id) (.list []) <|
   .done (.id id)
 
-def createNodeProg (label v : Nat) : Prog :=
-  .allocN fun id => createNodeFrom id label v
+def createNodeProgOld (label v : Nat) : Prog :=
+  .allocN fun id => createNodeFromOld id label v
 
 /-- `create_edge` after the existence checks and id allocation -/
 def createEdgeFrom (eid a b : Nat) (d : Bool) (ty v : Nat) : Prog :=
@@ -495,10 +512,17 @@ def Op.prog : Op → Prog
   | .batchDeleteNodes ids => batchDeleteNodesProg ids
   | .batchUpdateNodes us => batchUpdateNodesProg us
 
-/-- the operations as they were before 81b9c5b4 (no list lock) -/
+/-- the operations as they were before 81b9c5b4 (no list lock; `create_node` record first) -/
 def Op.progOld : Op → Prog
   | .createEdge a b d ty v => createEdgeProgOld a b d ty v
   | .deleteEdge e => deleteEdgeProgOld e
+  | .createNode l v => createNodeProgOld l v
+  | op => op.prog
+
+/-- the operations as they were between 81b9c5b4 and e23bf6c3: list lock in place, `create_node`
+    still stores the node record before it initialises the two lists -/
+def Op.progNodeFirst : Op → Prog
+  | .createNode l v => createNodeProgOld l v
   | op => op.prog
 
 /-! ### semantics -/
